@@ -96,7 +96,7 @@ def r_vtform(ctx):
               'modulus exponent is vt_length - 1 (= rendered width)',
               'the position sum is reduced modulo %s; required 4^(vt_length-1) so that it fits the rendered width exactly'
               % show(mod)[:80], inputs='strands whose ascent sum exceeds the smaller modulus / width')
-    s = val[2]
+    s = strip_int(val[2])
     if not (is_call(s, 'numpy.sum', 'builtins.sum') and len(s[2]) == 1):
         run.undecided('R-VTFORM', f, 'ascent-sum', nd.lineno, 'ascent term %s' % show(s)[:100])
         return
